@@ -91,7 +91,7 @@ def r1_extent_check(ctx):
         p = h.params
         if len(p) != 2:
             continue
-        rets = [r for r in returns_of(h) if r.value is not None and isinstance(r.value, ast.Compare) and isinstance(r.value.ops[0], ast.NotEq) and not enclosing_tests(r)]
+        rets = [r for r in returns_of(h) if r.value is not None and isinstance(r.value, ast.Compare) and isinstance(r.value.ops[0], ast.NotEq) and not isinstance(r.value.left, ast.Tuple)]
         for r in rets:
 
             def sm(s):
@@ -118,7 +118,10 @@ def r1_extent_check(ctx):
     ok = len(co) == 1
     if ok:
         ts = enclosing_tests(co[0])
-        ok = len(ts) == 1 and ts[0][1] and norm(ts[0][0]) == cf.params[1] and dotted(kw(co[0], "target_fit_range")) == cf.params[0] and dotted(kw(co[0], "out_fit_range")) == cf.params[1]
+        tgt, out_ = cf.params[0], cf.params[1]
+        known = {(norm(t), pol) for t, pol in ts}
+        allowed = {(out_, True), (f"not {tgt}", False), (tgt, True), (f"{tgt} is None", False), (f"{tgt} is not None", True), (f"{out_} is not None", True), (f"not {out_}", False)}
+        ok = known <= allowed and bool(known & {(out_, True), (f"{out_} is not None", True), (f"not {out_}", False)}) and dotted(kw(co[0], "target_fit_range")) == tgt and dotted(kw(co[0], "out_fit_range")) == out_
     ctx.check(ok, cf.qual + "#compat", "compatibility checked whenever an output range is given" if ok else "range compatibility is not checked whenever an output range is given", where=cf, node=co[0] if co else cf.node)
     chk = [c for c in calls_in(cf.node) if isinstance(c.func, ast.Attribute) and c.func.attr == "check" and dotted(c.func.value) == cf.params[0]]
     ok = len(chk) == 2
